@@ -650,7 +650,7 @@ theorem step_rs (cfg : Cfg) (s : St) (op : Op) : RS (step cfg s op) := by
   | setRespTimeout ms => exact RS.of_ns rfl
   | acquire => exact RS.of_ns rfl
   | register id => exact RS.of_ns rfl
-  | release id => exact RS.of_ns (by simp [step, releasePacketId])
+  | release id => exact RS.of_ns (by simp [step, releasePacketId_ev'])
   | erase id =>
     refine RS.of_ns ?_
     simp only [step, eraseStoredPublish]
